@@ -54,12 +54,18 @@ OP3(tdiv_q) OP3(tdiv_r) OP3(fdiv_q) OP3(fdiv_r) OP3(cdiv_q) OP3(cdiv_r) OP3(mod)
 typedef void (*f2_t)(mpz_ptr, mpz_srcptr);
 static void com3(mpz_ptr w, mpz_srcptr u, mpz_srcptr unused) { (void)unused; mpz_com(w, u); }
 static int op_com(int argc, tok_t *a, out_t *o) { return run(argc, a, o, com3, 0); }
+static void neg3(mpz_ptr w, mpz_srcptr u, mpz_srcptr unused) { (void)unused; mpz_neg(w, u); }
+static void abs3(mpz_ptr w, mpz_srcptr u, mpz_srcptr unused) { (void)unused; mpz_abs(w, u); }
+static void set3(mpz_ptr w, mpz_srcptr u, mpz_srcptr unused) { (void)unused; mpz_set(w, u); }
+static int op_neg(int argc, tok_t *a, out_t *o) { return run(argc, a, o, neg3, 0); }
+static int op_abs(int argc, tok_t *a, out_t *o) { return run(argc, a, o, abs3, 0); }
+static int op_set(int argc, tok_t *a, out_t *o) { return run(argc, a, o, set3, 0); }
 
 const opdef_t ops_alias[] = {
   {"alias_tdiv_qr", op_tdiv_qr}, {"alias_fdiv_qr", op_fdiv_qr}, {"alias_cdiv_qr", op_cdiv_qr},
   {"alias_tdiv_q", op_tdiv_q}, {"alias_tdiv_r", op_tdiv_r}, {"alias_fdiv_q", op_fdiv_q}, {"alias_fdiv_r", op_fdiv_r},
   {"alias_cdiv_q", op_cdiv_q}, {"alias_cdiv_r", op_cdiv_r}, {"alias_mod", op_mod},
-  {"alias_and", op_and}, {"alias_ior", op_ior}, {"alias_xor", op_xor}, {"alias_com", op_com},   /* alias_com w u _ _ … */
+  {"alias_and", op_and}, {"alias_ior", op_ior}, {"alias_xor", op_xor}, {"alias_com", op_com}, {"alias_neg", op_neg}, {"alias_abs", op_abs}, {"alias_set", op_set},   /* alias_com w u _ _ … */
   {"alias_mul_2exp", op_mul_2exp}, {"alias_tdiv_q_2exp", op_tdiv_q_2exp},
   {"alias_divexact", op_divexact},      /* the generator keeps to the documented domain: den != 0 and den | num */
   {0, 0}
